@@ -209,4 +209,37 @@ has no `_implied` (AttributeError, modelled as `none`) -/
 def sbProvidedByPy (d : DeclView) : Option Bool := if d.isSpecBase then some d.implied else none
 /-- C `SB_providedBy`: a non-specification is *called* with the interface (security-proxy path; `none` = whatever that call does) -/
 def sbProvidedByC (d : DeclView) : Option Bool := if d.isSpecBase then some d.implied else none
+
+/-! ### the specification descriptors -/
+/-- `ObjectSpecificationDescriptor.__get__(inst, cls)` as seen by its caller -/
+inductive DRes
+  | gos            -- `getObjectSpecification(cls)` (accessed through the class)
+  | val (id : Nat) -- the instance's `__provides__`
+  | implBy         -- `implementedBy(cls)`
+  | self_          -- the descriptor itself (ClassProvides accessed through its own class)
+  | implements     -- `self._implements`
+  | raise (e : Exc)
+deriving DecidableEq, Repr
+
+/-- declarations.py `ObjectSpecificationDescriptor.__get__`: `inst is None` → `getObjectSpecification(cls)`; else
+`try: return inst.__provides__ except AttributeError: return implementedBy(cls)` -/
+def osdGetPy (instIsNone : Bool) (provides : Get ValView) : DRes :=
+  if instIsNone then .gos else
+  match provides with
+  | .ok v => .val v.id
+  | .err .attr => .implBy
+  | .err .other => .raise .other
+/-- C `OSD_descr_get`: "Return __provides__ if we got it, or return NULL and propagate non-AttributeError" -/
+def osdGetC (instIsNone : Bool) (provides : Get ValView) : DRes :=
+  if instIsNone then .gos else
+  match provides with
+  | .ok v => .val v.id
+  | .err e => if e = .attr then .implBy else .raise .other
+
+/-- declarations.py `ClassProvidesBase.__get__`: only works on the class it was defined for -/
+def cpbGetPy (clsIsOwn instIsNone : Bool) : DRes :=
+  if clsIsOwn then (if instIsNone then .self_ else .implements) else .raise .attr
+/-- C `CPB_descr_get` -/
+def cpbGetC (clsIsOwn instIsNone : Bool) : DRes :=
+  if clsIsOwn then (if instIsNone then .self_ else .implements) else .raise .attr
 end ZI.SpecTwin
